@@ -21,6 +21,8 @@ for name in PICK:
         env = dict(os.environ, VERIF_REPO=scratch, VERIF_EVIDENCE_DIR=ev, VERIF_REPLAY_DIR=os.path.join(ev, 'replays'), VERIF_NO_PINNED='1')
         subprocess.run([os.path.join(HOME, 'check'), prop, '--tier', 'quick'], capture_output=True, text=True, env=env, cwd=HOME)
         reps = sorted(glob.glob(os.path.join(ev, 'replays', prop, '*.json')))
+        confirmed = [r for r in reps if str(json.load(open(r)).get('case', {}).get('confirmation', 'reproduced')).startswith('reproduced')]
+        reps = confirmed or reps
         if not reps:
             print(name, 'no replay file written'); continue
         r1 = subprocess.run([os.path.join(HOME, 'check'), prop, '--replay', reps[0]], capture_output=True, text=True, env=env, cwd=HOME)
